@@ -21,7 +21,7 @@ RULE = (
     "(programs, schedule)."
 )
 
-KINDS = ["grad1", "nested", "fwd_rev", "rev_fwd", "hvp", "jacobian", "nested3", "nested_jvp"]
+KINDS = ["grad1", "nested", "fwd_rev", "rev_fwd", "hvp", "jacobian", "nested3", "nested_jvp", "nested_twice", "two_calls"]
 
 
 def make_prog(kind, a):
@@ -63,6 +63,44 @@ def make_prog(kind, a):
             r = autograd.grad(outer)(1.0 + a)
             s.yp()
             return conv(r)
+    elif kind == "nested_twice":
+        def prog(s):
+            def outer(x):
+                s.enter(); s.yp()
+
+                def inner1(y):
+                    s.enter(); s.yp()
+                    r = x * y * y
+                    s.yp(); s.leave()
+                    return r
+
+                def inner2(y):
+                    s.enter(); s.yp()
+                    r = anp.sin(x * y) + a * y * x
+                    s.yp(); s.leave()
+                    return r
+                g1 = autograd.grad(inner1)(x)
+                s.yp()
+                g2 = autograd.grad(inner2)(x)
+                s.yp()
+                out = g1 * x + g2
+                s.yp(); s.leave()
+                return out
+            r = autograd.grad(outer)(0.6 + a)
+            s.yp()
+            return conv(r)
+    elif kind == "two_calls":
+        def prog(s):
+            def f(x):
+                s.enter(); s.yp()
+                y = anp.exp(0.3 * x) * x + a
+                s.yp(); s.leave()
+                return y
+            r1 = autograd.grad(f)(0.2 + a)
+            s.yp()
+            r2 = autograd.grad(f)(0.9 + a)
+            s.yp()
+            return conv(onp.array([r1, r2]))
     elif kind == "fwd_rev":
         def prog(s):
             def f(x):
@@ -165,8 +203,8 @@ def summ(r):
     return str(onp.frombuffer(bytes.fromhex(hx), dtype=dt).reshape(shape).tolist())
 
 
-SWEEP_PAIRS = [(("nested", 0.5), ("nested", 0.75)), (("nested", 0.5), ("grad1", 0.25)), (("nested3", 0.5), ("fwd_rev", 0.75)),
-               (("hvp", 0.25), ("nested_jvp", 0.5))]
+SWEEP_PAIRS = [(("nested", 0.5), ("nested", 0.75)), (("nested_twice", 0.5), ("two_calls", 0.25)), (("nested", 0.5), ("grad1", 0.25)),
+               (("nested3", 0.5), ("fwd_rev", 0.75)), (("hvp", 0.25), ("nested_jvp", 0.5))]
 
 
 def sweep(tier, seed):
